@@ -10,9 +10,9 @@ record kinds are exercised by the correspondence run against the independent sem
 (harness/src/lcov.rs) and are named `…_partial` until their byte lemmas are in.
 One guard is forced by the code: an FNDA must come after its FN (known finding C04-fnda-before-fn).
 -/
-import GrcovModel.Lemmas.Lcov
+import GrcovModel.Lemmas.LcovFidelity
 namespace Grcov.Props.C04
-open Grcov AList Grcov.Lcov
+open Grcov AList Grcov.Lcov Grcov.Lcov.Spec
 
 /-- A branch is taken iff some record for its (line, branch number) is taken – whatever the order
 and the block numbers – and the vector is indexed by branch number. -/
@@ -77,6 +77,42 @@ example : parse true
     [83, 70, 58, 97, 46, 99, 10, 68, 65, 58, 49, 44, 49, 56, 52, 52, 54, 55, 52, 52, 48, 55, 51, 55, 48, 57, 53, 53, 49, 54, 49, 53, 10, 68, 65, 58, 49, 44, 50, 13, 10, 66, 82, 68, 65, 58, 51, 44, 48, 44, 50, 44, 53, 10, 66, 82, 68, 65, 58, 51, 44, 49, 44, 48, 44, 48, 10, 70, 78, 58, 55, 44, 102, 10, 70, 78, 68, 65, 58, 49, 44, 102, 10, 101, 110, 100, 95, 111, 102, 95, 114, 101, 99, 111, 114, 100, 10]
     = .ok [([97, 46, 99], { lines := [(1, U64MAX)], branches := [(3, [false, false, true])],
                             functions := [([102], ⟨7, true⟩)] })] := by decide +kernel
+
+/-- **Fidelity, byte level.** For every list of well-formed sections (any record order, duplicate
+DA/BRDA records, negative counts, `-`/0/positive taken counts, any block numbers, any digit
+strings incl. leading zeros, names over arbitrary bytes other than CR/LF (decoded as UTF-8),
+TN:/summary/other records and blank lines anywhere, text after `end_of_record`), rendered with LF
+or CRLF line ends, with branch parsing on or off: the reader returns exactly one record per
+section, equal to what the records say (`semAll`: `applyRec` folded over the section).
+Guard (the `_partial`): `semAll` is defined, i.e. every FNDA record comes after the FN record of
+its function – the one order dependence of the code (known finding C04-fnda-before-fn). -/
+theorem C04_fidelity_partial (branch : Bool) (eol : Bytes) (heol : eol = [LF] ∨ eol = [CR, LF])
+    (secs : List Section) (hs : ∀ s ∈ secs, s.WF) (rs : List (Bytes × Cov))
+    (hsem : semAll branch secs = some rs) :
+    parse branch (render eol secs) = .ok rs := by
+  have := file_bytes branch eol heol secs hs rs hsem [] none
+  unfold parse
+  have e : ({} : St) = ⟨.dispatch, { results := [], curFile := none, cur := {} }⟩ := rfl
+  rw [e, this]
+  simp [finish]
+
+def witnessFndaFirst : Section :=
+  { pre := [], sf := [97], eor := [],
+    recs := [Rec.fnda ⟨49, []⟩ [102], Rec.fn ⟨49, []⟩ [102]] }
+
+/-- The guard is necessary: a well-formed section in which an FNDA precedes its FN is rejected
+(`Err(Parse)`), although the records name a declared function. Bytes: `SF:a⏎FNDA:1,f⏎FN:1,f⏎e⏎`. -/
+theorem C04_fidelity_needs_fn_before_fnda :
+    semAll true [witnessFndaFirst] = none ∧
+    parse true (render [LF] [witnessFndaFirst]) = .err "Parse" := by
+  decide +kernel
+
+/-- What a section's records say about a line, in any order: the clamped sum of the DA counts
+(negative counts contribute 0) – `applyRecs` restricted to DA records is `daFold`. -/
+theorem C04_sem_da_is_sum (rs : List (Nat × Nat)) (l : Nat) (h : ∃ r ∈ rs, r.1 = l) :
+    get? (daFold {} rs).cur.lines l
+      = some (min (((rs.filter fun r => decide (r.1 = l)).map (·.2)).sum) U64MAX) :=
+  C04_da_sum rs l h
 
 /-! ### branch parsing disabled -/
 
